@@ -539,7 +539,7 @@ func init() {
 			// string constants longer than any fixed scratch size (a shared, growing buffer would be re-assigned)
 			c.Do(subC12, &c12Case{Scenario: "dump2", A: "print \"" + strings.Repeat("s", 90) + "\"\nprint \"" + strings.Repeat("t", 300) + "\"\ndef b \"" + strings.Repeat("n", 5000) + "\" { x = 1 }", Bound: bound + 1})
 			c.Do(subC12, &c12Case{Scenario: "bind2", A: "def c11target \"nm\" { x = 3 }\nbind c11target -> struct", Bound: bound})
-			c.Do(subC12, &c12Case{Scenario: "defaults2", A: "def a { x = 1 }\nbind a -> struct", B: "var v = 2\ndef b { y = v }", Bound: bound + 1, Delay: true})
+			c.Do(subC12, &c12Case{Scenario: "defaults2", A: "def a { x = 1 }\nprint 1\nbind a -> struct", B: "var v = 2\nprint v\ndef b { y = v; print y }", Bound: bound + 1, Delay: true})
 			c.Do(subC12, &c12Case{Scenario: "loadbufio2", A: "var a = 1\ndef b \"n\" { x = a }\nbind b -> struct", Bound: bound + 1})
 			c.Bound("preemption_bound", bound)
 		},
@@ -580,7 +580,7 @@ func RacePass() int {
 		{Scenario: "parsefile2", A: big, B: big, Script: one},
 		{Scenario: "interpret2", A: strings.Repeat("print 1+2\n", 300), B: strings.Repeat("def b { x = 1 }\n", 200)},
 		{Scenario: "introspect2", A: strings.Repeat("print 1+2\n", 300), B: strings.Repeat("def b { x = 1 }\n", 200)},
-		{Scenario: "defaults2", A: strings.Repeat("def a { x = 1 }\n", 100), B: strings.Repeat("def b { y = 2 }\n", 100)},
+		{Scenario: "defaults2", A: strings.Repeat("def a { x = 1 }\n", 100) + "print 1", B: strings.Repeat("def b { y = 2 }\n", 100) + "print 2"},
 		{Scenario: "loadbufio2", A: strings.Repeat("print 1\n", 100) + "def b \"n\" { x = 1 }\nbind b -> struct"},
 		{Scenario: "exec2", A: strings.Repeat("print 1\n", 200) + "def b \"n\" { x = 1 }\nbind b -> struct"},
 		{Scenario: "execdump", A: strings.Repeat("print 1\n", 200) + "def b \"n\" { x = 1 }\nbind b -> struct"},
